@@ -1494,7 +1494,10 @@ func vC06Call(env *vC06Env, r *vRand, c *vC06Cfg, cfgCls string, maxItems int, w
 	}()
 	gid := <-gidc
 	stackBuf := make([]byte, 1<<18)
-	deadline := time.Now().Add(watchdog)
+	// The watchdog DECIDES a hang (kind 10). A whole call normally takes a few milliseconds; the watchdog is a vWatch of
+	// 3 s (it stretches when this process is starved: the wall clock alone never decides), and the callers run a case
+	// that came out as a hang a second time before they report it.
+	wd := vNewWatch(watchdog)
 	var res vC06Result
 	finished, hang := false, false
 	// waits until the controller has returned or is parked in select
@@ -1524,14 +1527,47 @@ func vC06Call(env *vC06Env, r *vRand, c *vC06Cfg, cfgCls string, maxItems int, w
 					return
 				}
 			}
-			if time.Now().After(deadline) {
+			if wd.Expired() {
 				hang = true
 				return
 			}
 			if spins < 50 {
 				runtime.Gosched()
 			} else {
-				time.Sleep(20 * time.Microsecond)
+				wd.Nap()
+			}
+		}
+	}
+	// hands pr to the controller (nil: only waits for it to return); ends when it was taken, the controller returned,
+	// or the watchdog expired
+	deliver := func(pr *PeerResponse) {
+		var ch chan PeerResponse
+		var v PeerResponse
+		if pr != nil {
+			ch, v = peer.ch, *pr
+		}
+		select {
+		case ch <- v:
+			return
+		case res = <-done:
+			finished = true
+			return
+		default:
+		}
+		tick := time.NewTicker(time.Millisecond)
+		defer tick.Stop()
+		for {
+			select {
+			case ch <- v:
+				return
+			case res = <-done:
+				finished = true
+				return
+			case <-tick.C:
+				if wd.Credit(time.Millisecond); wd.Expired() {
+					hang = true
+					return
+				}
 			}
 		}
 	}
@@ -1544,12 +1580,7 @@ func vC06Call(env *vC06Env, r *vRand, c *vC06Cfg, cfgCls string, maxItems int, w
 			items = append(items, vC06Item{kind: 2})
 			classes = append(classes, "cancel")
 			cancel()
-			select {
-			case res = <-done:
-				finished = true
-			case <-time.After(time.Until(deadline)):
-				hang = true
-			}
+			deliver(nil)
 			break
 		}
 		node, body, cl := gen.next(peer.snapshot())
@@ -1578,13 +1609,7 @@ func vC06Call(env *vC06Env, r *vRand, c *vC06Cfg, cfgCls string, maxItems int, w
 				peer.mu.Unlock()
 			}
 		}
-		select {
-		case peer.ch <- PeerResponse{RMNNodeID: rmntypes.NodeID(node), Body: body.pb()}:
-		case res = <-done:
-			finished = true
-		case <-time.After(time.Until(deadline)):
-			hang = true
-		}
+		deliver(&PeerResponse{RMNNodeID: rmntypes.NodeID(node), Body: body.pb()})
 		if partner != nil {
 			items = append(items, *partner)
 			if partner.kind == 3 {
@@ -1766,11 +1791,16 @@ func TestVerif_C06(t *testing.T) {
 			cfgCls = "fewsigners"
 		}
 		// every case draws from its own stream so that one case can be replayed alone
-		cr := vNewRand(r.U64())
+		cseed := r.U64()
+		cr := vNewRand(cseed)
 		if only >= 0 && i != only {
 			continue
 		}
 		coq, cls, nt, show := vC06Run(cr, cfgCls, 4+cr.Intn(24), 3*time.Second, nil)
+		if show["kind"].(uint64) == 10 { // a hang is reported only when the same case hangs a second time
+			cr = vNewRand(cseed)
+			coq, cls, nt, show = vC06Run(cr, cfgCls, 4+cr.Intn(24), 3*time.Second, nil)
+		}
 		for _, c := range show["classes"].([]string) {
 			hist[c]++
 		}
@@ -1805,7 +1835,8 @@ func TestVerif_C06_sweep(t *testing.T) {
 		for a := 0; a < len(list); a++ {
 			for b := a; b < len(list); b++ {
 				for k := 0; k < reps; k++ {
-					cr := vNewRand(r.U64())
+					cseed := r.U64()
+					cr := vNewRand(cseed)
 					idx := i
 					i++
 					if only >= 0 && idx != only {
@@ -1816,6 +1847,10 @@ func TestVerif_C06_sweep(t *testing.T) {
 						sw.anoms = append(sw.anoms, list[b])
 					}
 					coq, cls, nt, show := vC06Run(cr, "ok", 14, 3*time.Second, sw)
+					if show["kind"].(uint64) == 10 { // a hang is reported only when the same case hangs a second time
+						sw2 := &vC06Sweep{phase: sw.phase, anoms: append([]vC06Anom(nil), sw.anoms...)}
+						coq, cls, nt, show = vC06Run(vNewRand(cseed), "ok", 14, 3*time.Second, sw2)
+					}
 					name := list[a].name
 					if b != a {
 						name += "+" + list[b].name
